@@ -602,6 +602,9 @@ func (fc *FC) val(v ssa.Value) *RF {
 		}
 		return s.Var(fmt.Sprintf("alloc:%s:%s", x.W.FuncName(fc.Fn), v.Name()), false)
 	case *ssa.MakeSlice:
+		if src := fc.copiedFrom(v); src != nil {
+			return s.Fn("copyof", src) // make+copy: a fresh copy of src
+		}
 		return s.MakeFn("makeslice:"+x.W.FuncName(fc.Fn)+":"+v.Name(), fc.Val(v.Len))
 	case *ssa.MakeMap:
 		return s.Var(fmt.Sprintf("makemap:%s:%s", x.W.FuncName(fc.Fn), v.Name()), false)
@@ -1431,6 +1434,9 @@ func (fc *FC) call(c *ssa.Call) *RF {
 			if at := args[0].SingleAtom(); at != nil && strings.HasPrefix(at.Name, "makeslice:") && b.Name() == "len" {
 				return at.Args[0]
 			}
+			if at := args[0].SingleAtom(); at != nil && at.Name == "copyof" && b.Name() == "len" {
+				return s.MakeFn("len", at.Args[0])
+			}
 			return s.MakeFn(b.Name(), args[0])
 		}
 		return s.MakeFn("builtin:"+b.Name(), args...)
@@ -1500,7 +1506,7 @@ func (x *Extractor) inline(f *ssa.Function, args []*RF, parent *FC) *RF {
 	if res.Len() == 0 {
 		return nil
 	}
-	ptrRes := false
+	ptrRes, sliceRes := false, false
 	for i := 0; i < res.Len(); i++ {
 		t := res.At(i).Type()
 		if _, isIface := t.Underlying().(*types.Interface); isIface {
@@ -1508,8 +1514,10 @@ func (x *Extractor) inline(f *ssa.Function, args []*RF, parent *FC) *RF {
 		}
 		// a struct value that merely contains slices is a value (its fields are atoms)
 		switch t.Underlying().(type) {
-		case *types.Pointer, *types.Slice, *types.Map, *types.Chan, *types.Signature:
+		case *types.Pointer, *types.Map, *types.Chan, *types.Signature:
 			ptrRes = true
+		case *types.Slice:
+			sliceRes = true
 		}
 	}
 	x.depth[f]++
@@ -1547,6 +1555,7 @@ func (x *Extractor) inline(f *ssa.Function, args []*RF, parent *FC) *RF {
 	if ptrRes {
 		return nil
 	}
+	_ = sliceRes // a slice result of a pure acyclic helper is a value like any other (a parameter, a fresh copy, …)
 	// effects: only pure helpers are inlined (no stores to non-local memory)
 	if x.Eff != nil {
 		if !x.pureForInline(f) {
@@ -1963,4 +1972,56 @@ func (fc *FC) TailCallees() []*FC {
 		}
 	}
 	return out
+}
+
+// copiedFrom: ms is `make([]T, len(src))` immediately filled by
+// `copy(ms, src)` before any other use: the source slice, else nil.
+func (fc *FC) copiedFrom(ms *ssa.MakeSlice) *RF {
+	refs := ms.Referrers()
+	if refs == nil {
+		return nil
+	}
+	var cp *ssa.Call
+	for _, ref := range *refs {
+		if c, ok := ref.(*ssa.Call); ok {
+			if bi, isB := c.Common().Value.(*ssa.Builtin); isB && bi.Name() == "copy" && len(c.Common().Args) == 2 && c.Common().Args[0] == ms {
+				if cp != nil {
+					return nil
+				}
+				cp = c
+			}
+		}
+	}
+	if cp == nil {
+		return nil
+	}
+	src := fc.Val(cp.Common().Args[1])
+	if !fc.Val(ms.Len).Equal(fc.X.S.MakeFn("len", src)) {
+		return nil
+	}
+	// every other use comes after the copy
+	for _, ref := range *refs {
+		if ref == ssa.Instruction(cp) {
+			continue
+		}
+		if _, isDbg := ref.(*ssa.DebugRef); isDbg {
+			continue
+		}
+		if ref.Block() == cp.Block() {
+			after := false
+			for _, in := range cp.Block().Instrs {
+				if in == ssa.Instruction(cp) {
+					after = true
+				}
+				if in == ref && !after {
+					return nil
+				}
+			}
+			continue
+		}
+		if !fc.Ctx.Dominates(cp.Block(), ref.Block()) {
+			return nil
+		}
+	}
+	return src
 }
